@@ -440,6 +440,7 @@ int main(int argc, char** argv) {
     else if (!strcmp(c, "defs")) reply_rc(define_var(2, AI(1), A(2), A(3), A(4)));
     else if (!strcmp(c, "incfile")) { size_t n; if (nincs < 64) { incs[nincs].name = strdup(A(1)); incs[nincs].text = (char*) unhex(A(2), &n); nincs++; } reply_rc(0); }
     else if (!strcmp(c, "incclear")) { for (int i = 0; i < nincs; i++) { free(incs[i].name); free(incs[i].text); } nincs = 0; reply_rc(0); }
+    else if (!strcmp(c, "add") && (!C[AI(1)] || C[AI(1)]->errors != 0)) { ob_puts(&out, "{\"errors\":-2,\"skipped\":1,\"msgs\":[]}"); /* API contract: no add after a failed add */ }
     else if (!strcmp(c, "add")) {
       int i = AI(1); size_t n; uint8_t* t = unhex(A(3), &n); const char* ns = strcmp(A(2), "-") ? A(2) : NULL; int e = -1;
       ob_reset(&cmsgs); ncmsgs = 0; cb_errors = cb_warnings = cb_bad = 0;
@@ -461,6 +462,7 @@ int main(int argc, char** argv) {
     else if (!strcmp(c, "getrules") && C[AI(1)] && C[AI(1)]->errors != 0) { reply_rc(-2); /* yr_compiler_get_rules asserts errors == 0 */ }
     else if (!strcmp(c, "getrules")) { int i = AI(1), r = AI(2), rc; if (R[r]) { API(yr_rules_destroy(R[r])); R[r] = NULL; } API(rc = yr_compiler_get_rules(C[i], &R[r])); if (rc) R[r] = NULL; reply_rc(rc); }
     else if (!strcmp(c, "rdestroy")) { int r = AI(1); if (R[r]) { API(yr_rules_destroy(R[r])); R[r] = NULL; } reply_rc(0); }
+    else if ((!strcmp(c, "save") || !strcmp(c, "savefile") || !strcmp(c, "stats")) && !R[AI(1)]) reply_rc(-2);
     else if (!strcmp(c, "save")) {
       int r = AI(1), b = AI(2), rc; MS m; memset(&m, 0, sizeof m); YR_STREAM st; st.user_data = &m; st.write = ms_write; st.read = NULL;
       API(rc = yr_rules_save_stream(R[r], &st));
@@ -504,6 +506,7 @@ int main(int argc, char** argv) {
     else if (!strcmp(c, "sflags")) { yr_scanner_set_flags(S[AI(1)], AI(2)); reply_rc(0); }
     else if (!strcmp(c, "stimeout")) { yr_scanner_set_timeout(S[AI(1)], AI(2)); reply_rc(0); }
     else if (!strcmp(c, "sstate")) scanner_state(S[AI(1)]);
+    else if (!strcmp(c, "info") && !R[AI(1)]) reply_rc(-2);
     else if (!strcmp(c, "info")) rules_info(R[AI(1)]);
     else if (!strcmp(c, "stats")) { YR_RULES_STATS st; int rc; API(rc = yr_rules_get_stats(R[AI(1)], &st)); ob_puts(&out, "{\"rc\":"); ob_int(&out, rc); ob_puts(&out, ",\"rules\":"); ob_int(&out, st.num_rules); ob_puts(&out, ",\"strings\":"); ob_int(&out, st.num_strings); ob_puts(&out, ",\"ac_matches\":"); ob_int(&out, st.ac_matches); ob_putc(&out, '}'); }
     else if (!strcmp(c, "scan")) do_scan();
